@@ -18,6 +18,10 @@ Static clauses decided (necessary conditions of C29):
  PARAMKEY a JSON path that contains a parameter becomes a composite parameter; parameters are de-duplicated per statement by
           their key, so the key must distinguish paths that differ only in a literal component: every non-parameter item
           contributes its value to the key (only slices, which are not hashable, are replaced by a marker).
+ NEGCONST membership tests that are decided at translation time (`[] in arr`, an empty list) produce a constant-truth SQL condition; in
+          every `contains(..., not_in)` translator method the constant chosen for `not in` is the negation of the one chosen for `in`
+          (the two are evaluated for not_in = True / False: EQ/NE of literal VALUEs).  `x not in arr` must never be constant-true
+          together with `x in arr`.
  DEFAULTS the JSON operations a dialect does not implement raise (SQLBuilder.JSON_* defaults throw NotImplementedError).
 """
 NOT_DECIDED = "semantics of each JSON/array operator on each engine; negative array indexes in SQLite JSON1 paths"
@@ -115,6 +119,66 @@ def run(ctx):
             ok = g.exit.id not in g.reachable_nodes()
             ctx.ob('C29-DEFAULTS.unimplemented-operation-raises', f, f.node, ok, '' if ok else '%s default can return normally' % name)
     ctx.floor('C29-DEFAULTS', n, 11, 'default JSON/ARRAY builder methods that raise')
+    # ---------------------------------------------------------------- NEGCONST
+    def const_eval(e, env):
+        if isinstance(e, ast.Constant): return e.value
+        if isinstance(e, ast.Name) and e.id in env: return env[e.id]
+        if isinstance(e, ast.IfExp):
+            t = const_eval(e.test, env)
+            return None if t is None else const_eval(e.body if t else e.orelse, env)
+        if isinstance(e, ast.UnaryOp) and isinstance(e.op, ast.Not):
+            v = const_eval(e.operand, env); return None if v is None else (not v)
+        if isinstance(e, ast.BoolOp):
+            vs = [const_eval(v, env) for v in e.values]
+            if any(v is None for v in vs): return None
+            return all(vs) if isinstance(e.op, ast.And) else any(vs)
+        return None
+    def truth(tpl, env):
+        # ['EQ'|'NE', ['VALUE', a], ['VALUE', b]] with a, b constant under env
+        if not (isinstance(tpl, ast.List) and len(tpl.elts) == 3): return None
+        op = const_eval(tpl.elts[0], env)
+        vals = []
+        for x in tpl.elts[1:]:
+            if not (isinstance(x, ast.List) and len(x.elts) == 2 and const_eval(x.elts[0], env) == 'VALUE'): return None
+            v = const_eval(x.elts[1], env)
+            if v is None: return None
+            vals.append(v)
+        if op == 'EQ': return vals[0] == vals[1]
+        if op == 'NE': return vals[0] != vals[1]
+        return None
+    nneg = 0
+    for fn in repo.rule_funcs():
+        if fn.mod.name != 'pony.orm.sqltranslation' or fn.name != 'contains' or 'not_in' not in fn.params: continue
+        res = {True: [], False: []}
+        for flag in (True, False):
+            env = {'not_in': flag}
+            def walk(stmts):
+                for st in stmts:
+                    if isinstance(st, ast.Assign) and len(st.targets) == 1 and isinstance(st.targets[0], ast.Name):
+                        v = const_eval(st.value, env)
+                        if v is not None: env[st.targets[0].id] = v
+                        else: env.pop(st.targets[0].id, None)
+                    if isinstance(st, ast.If):
+                        t = const_eval(st.test, env)
+                        if t is None: walk(st.body); walk(st.orelse)
+                        else: walk(st.body if t else st.orelse)
+                        continue
+                    if isinstance(st, (ast.For, ast.While, ast.With, ast.Try)):
+                        walk(getattr(st, 'body', [])); continue
+                    for tpl in [x for x in ast.walk(st) if isinstance(x, ast.List)]:
+                        tv = truth(tpl, env)
+                        if tv is not None: res[flag].append((tv, tpl))
+            walk(fn.node.body)
+        if not res[True] or not res[False]: continue      # the answer is a constant for only one polarity (e.g. the join form of `in`): nothing to compare
+        nneg += 1
+        tvals = {tv for tv, _ in res[True]}; fvals = {tv for tv, _ in res[False]}
+        ok = bool(tvals) and bool(fvals) and not (tvals & fvals)
+        node = (res[True] or res[False])[0][1]
+        ctx.ob('C29-NEGCONST.constant-answer-of-not-in-negates-in', fn, node, ok,
+               '' if ok else 'the constant condition produced for `not in` evaluates to %s, for `in` to %s: they are not each other\'s negation, so `[] not in arr` and `[] in arr` '
+               'select the same rows' % (sorted(tvals), sorted(fvals)), node=node)
+    ctx.floor('C29-NEGCONST', nneg, 1, 'contains() methods with translation-time constant answers')
+
 
 
 def quote_class_reason(pattern, Q):
@@ -139,6 +203,8 @@ def quote_class_reason(pattern, Q):
 
 
 MUTANTS = [
+    dict(id='C29-nc1', file='pony/orm/sqltranslation.py', fn='ArrayMixin.contains', old="                if not_in:\n                    return BoolExprMonad(['EQ', ['VALUE', 0], ['VALUE', 1]], nullable=False)\n                else:\n                    return BoolExprMonad(['EQ', ['VALUE', 1], ['VALUE', 1]], nullable=False)\n",
+         new="                const = 0 if not_in else 1\n                return BoolExprMonad(['EQ', ['VALUE', const], ['VALUE', const]], nullable=False)\n", expect='C29-NEGCONST'),
     dict(id='C29-m1', file='pony/orm/sqlbuilding.py', fn='SQLBuilder.build_json_path', old="            paramkey = tuple(item.paramkey if isinstance(item, Param) else\n                             None if type(item.value) is slice else item.value\n                             for item in items)",
          new="            paramkey = tuple(item.paramkey if isinstance(item, Param) else None\n                             for item in items)", expect='C29-PARAMKEY'),
     dict(id='C29-m2', file='pony/orm/dbproviders/sqlite.py', old="""json_path_re = re.compile(r'\\[(-?\\d+)\\]|\\.(?:(\\w+)|"([^"]*)")', re.UNICODE)""", new="""json_path_re = re.compile(r'\\[(\\d+)\\]|\\.(?:(\\w+)|"([^"]*)")', re.UNICODE)""", expect='C29-PATH'),
